@@ -137,7 +137,8 @@ IDENTIFIER_SPECIALS = {
 #   SQLite: a sub-query column called true / false is renamed columnN, and the unmatched "True" is then read as the string 'True' (3.40)
 IDENTIFIER_REFUSALS = {
     "SparkSQLModel": [({"${"}, "a column named ${system:user.name} comes back named after the substituted value (root)")],
-    "SQLiteModel": [({"true", "false"}, "columns True, False (a pivot on a flag) come back as the texts 'True', 'False': True / (True + False) is 0.0 where Pandas gives 0.17")],
+    "SQLiteModel": [({"true", "false"}, "columns True, False (a pivot on a flag), referred to through a sub-query or CTE, come back as the texts 'True', 'False': "
+                                        "True / (True + False) is 0.0 where Pandas gives 0.17")],
 }
 
 POSTGRESQL_JOIN_KEYWORDS = {"INNER JOIN", "LEFT JOIN", "RIGHT JOIN", "FULL JOIN", "CROSS JOIN",
